@@ -268,7 +268,7 @@ def rule_lenflow(ctx, rep):
         for name in ("from_header_and_iter", "from_header_and_slice"):
             for b in F.method("ThinArc", name):
                 B = cfg.Body(b)
-                e = nobb(symx.local_expr(F, B, 0, 0))
+                e = nobb(symx.normalize_calls(F, symx.local_expr(F, B, 0, 0), lambda k: not balance.is_api(F, F.body(k))))
                 news = []
                 find_calls(e, "new", news)
                 ctor = []
@@ -487,6 +487,38 @@ def _exact_wrapper_types(F):
     return out
 
 
+def _behind_flag(F, B, b, cut, goal):
+    """`let exact = matches!(..); if exact { goal }`: the goal sits behind the true edge of a switch on a bool local that is only
+    assigned constants, and every block assigning `true` to it is itself behind the cut edges (value-sensitive where plain CFG
+    reachability sees the infeasible path false -> join -> true branch)."""
+    for bi, bl in enumerate(b["blocks"]):
+        tt = bl["term"]
+        if tt["k"] != "switch":
+            continue
+        pl = operand_place(tt["discr"])
+        if pl is None or pl["p"]:
+            continue
+        fl = pl["l"]
+        for _ in range(4):  # through plain copies of the flag
+            d1 = B.single_def(fl)
+            if d1 and d1[0] == "assign" and d1[3]["k"] == "use" and operand_place(d1[3]["op"]) is not None and not operand_place(d1[3]["op"])["p"]:
+                fl = operand_place(d1[3]["op"])["l"]
+            else:
+                break
+        ds = B.defs().get(fl, [])
+        if len(ds) < 2 or not all(d[0] == "assign" and d[3]["k"] == "use" and operand_const(d[3]["op"]) is not None for d in ds):
+            continue
+        true_tgts = [tg for tg, tv in B.switch_truth(tt).items() if tv]
+        if not true_tgts:
+            continue
+        if c03.reachable_without(B, set((bi, tg) for tg in true_tgts), set(), goal):
+            continue  # the goal does not depend on this flag
+        true_defs = [d[1] for d in ds if operand_const(d[3]["op"]).get("int") == 1]
+        if true_defs and all(not c03.reachable_without(B, cut, set(), db) for db in true_defs):
+            return True
+    return False
+
+
 def rule_exact(ctx, rep):
     """FromIterator: the exact-size fast path is taken only when the size hint's upper bound is `Some` and equals the lower bound of
     one and the same size_hint() call (`Some(lower) == upper`, or `(lower, Some(upper)) if lower == upper`); the wrapper's len() is
@@ -526,6 +558,8 @@ def rule_exact(ctx, rep):
                     if y[0] == "tfield":
                         x, y = y, x
                     # lower = hint.0 ; upper = (hint.1 as Some).0
+                    if y[0] == "proj" and y[1][0] == "tfield" and y[1][2] == 1 and tuple(y[2]) == ("?", "0"):
+                        y = ("proj", y[1][1], ("1", "?", "0"))  # `let (lower, upper) = hint; .. (upper as Some).0`
                     if x[0] == "tfield" and x[2] == 0 and y[0] == "proj" and tuple(y[2]) == ("1", "?", "0") and nobb(x[1]) == nobb(y[1]) and x[1][0] == "call" and x[1][2] == "size_hint":
                         seen_cmp = True
                         neg = c["neg"] != (c["op"] == "Ne")
@@ -544,7 +578,7 @@ def rule_exact(ctx, rep):
                 ok, why = False, "no exact-size constructor call found"
             else:
                 for x in exact_bbs:
-                    if c03.reachable_without(B, cut, set(), x):
+                    if c03.reachable_without(B, cut, set(), x) and not _behind_flag(F, B, b, cut, x):
                         ok, why = False, "the exact-size constructor is reachable without the bounds having been found equal: an iterator with lower < upper (or no upper bound) would be trusted to yield exactly `lower` items"
             if ok:
                 rep.ok("R-EXACT", b["key"], cfg=tag)
@@ -582,7 +616,7 @@ def rule_delegates(ctx, rep):
                 vecs = [p.vec for p in A.paths[b["key"]] if p.exit == "ret"]
                 msg = c04.check_class("NEW", vecs)
                 ds = B.defs().get(0, [])
-                e = nobb(symx.local_expr(F, B, 0, 0)) if len(ds) == 1 else None
+                e = nobb(symx.normalize_calls(F, symx.local_expr(F, B, 0, 0), lambda k: not balance.is_api(F, F.body(k)))) if len(ds) == 1 else None
                 ok = msg is None
                 why = msg
                 if e is not None:
